@@ -30,7 +30,7 @@ from ..refmodels import index_int as ii
 from ..util import precision
 
 RULE = ('every index from the first one up to the end of the first complete block past J is evaluated (J = 1e5 quick, '
-        '4e6 thorough; blocks = radial orders / Fringe groups / XY degrees, dealt round-robin to the shards); a case is '
+        '3e6 thorough; blocks = radial orders / Fringe groups / XY degrees, dealt round-robin to the shards); a case is '
         'one block swept with one index type (python int; numpy.int64 for the first 150 blocks and every 7th after; '
         'numpy.int32 / intp / int16 for early blocks whose arithmetic fits the container; every 5th early block once more '
         'under config.precision = 32 — the maps must be exact integers in either configuration), one radial order n of the '
@@ -73,9 +73,15 @@ def _as_int(v):
 
 # ------------------------------------------------------------------------------------------ contracts
 def _post_zernike(fn):
+    first = 0 if fn == 'ansi_j_to_nm' else 1
+
     def post(token, args, kwargs, result):
-        CTX.observe(fn + '.valid-order')
         j = args[0] if args else kwargs.get('idx')
+        ji = _as_int(j)
+        if ji is None or ji < first:
+            CTX.skip(f'{fn}: index below the first index of the convention / not an integer (outside the domain)')
+            return
+        CTX.observe(fn + '.valid-order')
         ok = isinstance(result, tuple) and len(result) == 2
         n = m = None
         if ok:
@@ -89,8 +95,11 @@ def _post_zernike(fn):
 
 
 def _post_xy(token, args, kwargs, result):
-    CTX.observe('xy_j_to_mn.valid-order')
     j = args[0] if args else kwargs.get('j')
+    if _as_int(j) is None or _as_int(j) < 1:
+        CTX.skip('xy_j_to_mn: index below 1 / not an integer (outside the domain)')
+        return
+    CTX.observe('xy_j_to_mn.valid-order')
     ok = isinstance(result, tuple) and len(result) == 2
     if ok:
         a, b = _as_int(result[0]), _as_int(result[1])
@@ -103,6 +112,11 @@ def _post_xy(token, args, kwargs, result):
 
 def _post_inverse(fn, first):
     def post(token, args, kwargs, result):
+        a = list(args) + [kwargs[k] for k in ('n', 'm') if k in kwargs]
+        n_, m_ = (_as_int(a[0]), _as_int(a[1])) if len(a) >= 2 else (None, None)
+        if n_ is None or m_ is None or not ii.valid_nm(n_, m_):
+            CTX.skip(f'{fn}: (n, m) is not a valid Zernike order (outside the domain)')
+            return
         CTX.observe(fn + '.valid-index')
         j = _as_int(result)
         if j is None or j < first:
@@ -238,7 +252,7 @@ def _nblocks(T, J):
 
 def _run(ctx):
     tables = _tables()
-    J = ctx.pick(100_000, 4_000_000)
+    J = ctx.pick(100_000, 3_000_000)
     swept = {}
 
     # --- 1. exhaustive block sweeps of the forward maps -------------------------------------------------
@@ -301,7 +315,7 @@ def _run(ctx):
 
     # --- 2. (n, m) -> j -> (n, m) for every valid order up to N ----------------------------------------------
     from prysm import polynomials as P
-    N = ctx.pick(600, 2500)
+    N = ctx.pick(600, 2000)
     for n in range(N + 1):
         if not ctx.mine(n):
             continue
@@ -342,7 +356,7 @@ def _run(ctx):
     # --- 3. isolated large-index probes (deciding up to 2^31 - 1) -------------------------------------------
     rng = ctx.rng('c11-probes')
     JMAX = 2 ** 31 - 1
-    nprobe = ctx.share(ctx.pick(2000, 400_000))
+    nprobe = ctx.share(ctx.pick(2000, 300_000))
     slow_budget = {'noll': ctx.pick(40, 400), 'xy': ctx.pick(40, 400)}   # O(sqrt j) per call: bounded number of big ones
     names = list(tables)
     for i in range(nprobe):
